@@ -15,14 +15,15 @@ Proof.
 Qed.
 Print Assumptions C12_write_bounded.
 
-(* read sessions (before close() aborts): bytes buffered ahead of the reader < buffer + one
-   container; objects queued <= capacity; for every number of containers *)
-Theorem C12_read_bounded : forall cap buf M c p k s, 0 <= M -> Forall (fun x => zlen x <= M) c -> RPipe.reach cap buf c p k s ->
+(* read sessions (before close() aborts): bytes buffered ahead of the reader < max(buffer, largest single
+   read request R) + one container; objects queued <= capacity; for every number of containers *)
+Theorem C12_read_bounded : forall cap buf M R c p k s, 0 <= M -> Forall (fun x => zlen x <= M) c -> req_bound R p -> RPipe.reach cap buf c p k s ->
   tg s <= hw s /\ dropat s <= hw s /\
-  (u_abort s = false -> zlen (udata s) - hw s <= Z.max 0 (buf - 1) + M) /\
-  (q_abort s = false -> zlen (RPipe.q s) <= Z.max cap 0).
+  (u_abort s = false -> zlen (udata s) - hw s <= Z.max 0 (Z.max buf R - 1) + M) /\
+  (q_abort s = false -> zlen (RPipe.q s) <= Z.max cap 0) /\
+  buf <= bufsz s <= Z.max buf R.
 Proof.
-  intros cap buf M c p k s HM Hc R. destruct (read_bounded cap buf M c p k s HM Hc R) as (A & B & C & D & _). repeat split; assumption.
+  intros cap buf M R c p k s HM Hc HR Hr. destruct (read_bounded cap buf M R c p k s HM Hc HR Hr) as (A & B & C & D & _ & _ & E & _). repeat split; try assumption; apply E.
 Qed.
 Print Assumptions C12_read_bounded.
 
